@@ -1,6 +1,7 @@
 package main
 
 import (
+	"encoding/binary"
 	"bytes"
 	"encoding/hex"
 	"encoding/json"
@@ -354,7 +355,7 @@ type diskDB struct {
 	casePath string
 }
 
-func buildDiskDB(r *rand.Rand, tmp string, delta bool, nops int) *diskDB {
+func buildDiskDB(r *rand.Rand, tmp string, delta bool, nops int, seqKeys bool) *diskDB {
 	installCounterHook()
 	in := &mvInput{Mode: "mvcc", Cmp: r.Intn(2), MM: false, Delta: delta}
 	e := mvGenerate(r, in, nops, false)
@@ -362,6 +363,16 @@ func buildDiskDB(r *rand.Rand, tmp string, delta bool, nops int) *diskDB {
 	// make sure there is content and an open snapshot
 	for i := 0; i < 12; i++ {
 		g.do(mvOp{Op: "put", W: 0, Bs: b2i(g.item(r.Intn(30)))})
+	}
+	if seqKeys {
+		// runs of sequential keys of equal length: the XOR of the CRCs of 4 aligned neighbours is 0
+		for i := 0; i < 64; i++ {
+			bs := []byte(fmt.Sprintf("k%04d", i))
+			if in.Cmp == 1 {
+				bs = nitro.KVToBytes(bs, []byte("v"))
+			}
+			g.do(mvOp{Op: "put", W: 0, Bs: b2i(bs)})
+		}
 	}
 	g.do(mvOp{Op: "snap"})
 	in.Ops = g.ops
@@ -457,7 +468,7 @@ func diskLoadRun(a runArgs, sink *CaseSink) error {
 	for dbi := 0; dbi < ndb; dbi++ {
 		dtmp := filepath.Join(tmp, fmt.Sprintf("db%d", dbi))
 		os.MkdirAll(dtmp, 0755)
-		d := buildDiskDB(top, dtmp, dbi%2 == 1, 20+top.Intn(40))
+		d := buildDiskDB(top, dtmp, dbi%2 == 1, 20+top.Intn(40), dbi%2 == 0)
 		// enumerate the files
 		var files []string
 		filepath.Walk(d.dir, func(p string, info os.FileInfo, err error) error {
@@ -521,6 +532,28 @@ func diskLoadRun(a runArgs, sink *CaseSink) error {
 			}
 			add(fmt.Sprintf("truncate %s at %d", f, sz-1), diskFault{f, "trunc", sz - 1, 0})
 			add(fmt.Sprintf("truncate %s at 0", f), diskFault{f, "trunc", 0, 0})
+			// a length prefix turned into zero (one byte for items shorter than 256 bytes): the reader
+			// takes it for the end marker and the rest of the shard would be dropped
+			if bs, err := os.ReadFile(filepath.Join(d.dir, f)); err == nil {
+				var starts []int
+				for off := 0; off+4 <= len(bs); {
+					l := int(binary.BigEndian.Uint32(bs[off : off+4]))
+					if l == 0 {
+						break
+					}
+					if l < 256 {
+						starts = append(starts, off)
+					}
+					off += 4 + l
+				}
+				for k := 0; k < 6 && len(starts) > 0; k++ {
+					off := starts[top.Intn(len(starts))]
+					if k == 0 {
+						off = starts[0]
+					}
+					add(fmt.Sprintf("set %s[%d]=0x00 (length prefix of the record at %d becomes 0)", f, off+3, off), diskFault{f, "set", off + 3, 0})
+				}
+			}
 		}
 		// redirect a files.json entry to another shard (a one-byte change of the manifest)
 		if bs, err := os.ReadFile(filepath.Join(d.dir, "data", "files.json")); err == nil {
